@@ -1,4 +1,5 @@
-import Norad.Lemmas.FontInfo
+import Norad.Lemmas.FontInfoTie
+import Norad.Generated.FontInfoRules
 /-!
 # C13 — font info is accepted exactly when it satisfies the specification's rules
 
@@ -166,6 +167,202 @@ theorem validate_error_kind (i : Info) (k : Kind) (h : validate i = .err k) : Ki
     exact fun hh => ne_ok h ((checkNonEmpty_spec _).2.2 hh.2.2.2.2)
 
 example : KindViolated .listLen { blueValues := some 15 } := by simp [KindViolated, lenWithin]
+
+/-! ### source-level tie of the rule constants (tools/extract_fontinfo_rules.py)
+
+`Generated.FontInfoRules.*` is regenerated from `src/fontinfo.rs` on every run.  `model_consts_describe_validate`
+and `spec_table_describes_rules` are stable (they do not mention the generated file): they say that the mirrored
+tables / the rule table describe the model / the specification.  The `source_*` theorems compare the generated
+constants with both, set-wise, so a changed limit breaks an obligation and a reordering does not. -/
+
+theorem rules_single {i : Info} {P : Prop} (hto : Rules i → P)
+    (hfrom : P → Rules i) : validate i = .ok ↔ P := by
+  rw [validate_iff_rules]; exact ⟨hto, hfrom⟩
+
+open RuleTable in
+/-- the mirrored tables say what the model does: the date chain *is* the chain of `ModelConsts.dateOps`,
+    the character test and the length test use `dateExtraChars` / `dateLength`, and each list, the selection
+    bits, the family class and (integral) angles are accepted by `validate` exactly within the mirrored bounds -/
+theorem model_consts_describe_validate :
+    (∀ v, dateChain v = chainOf v ModelConsts.dateOps) ∧
+    (∀ c, okChar c = (('0' ≤ c && c ≤ '9') || ModelConsts.dateExtraChars.contains c)) ∧
+    (∀ v, byteLen v ≠ ModelConsts.dateLength → validateDate v = .err .date) ∧
+    (∀ n, validate { blueValues := some n } = .ok ↔
+      n ≤ limitOf ModelConsts.listLimits "postscript_blue_values" ∧
+      (ModelConsts.pairLists.contains "postscript_blue_values" = true → n % 2 = 0)) ∧
+    (∀ n, validate { otherBlues := some n } = .ok ↔
+      n ≤ limitOf ModelConsts.listLimits "postscript_other_blues" ∧
+      (ModelConsts.pairLists.contains "postscript_other_blues" = true → n % 2 = 0)) ∧
+    (∀ n, validate { familyBlues := some n } = .ok ↔
+      n ≤ limitOf ModelConsts.listLimits "postscript_family_blues" ∧
+      (ModelConsts.pairLists.contains "postscript_family_blues" = true → n % 2 = 0)) ∧
+    (∀ n, validate { familyOtherBlues := some n } = .ok ↔
+      n ≤ limitOf ModelConsts.listLimits "postscript_family_other_blues" ∧
+      (ModelConsts.pairLists.contains "postscript_family_other_blues" = true → n % 2 = 0)) ∧
+    (∀ n, validate { stemSnapH := some n } = .ok ↔
+      n ≤ limitOf ModelConsts.listLimits "postscript_stem_snap_h" ∧
+      (ModelConsts.pairLists.contains "postscript_stem_snap_h" = true → n % 2 = 0)) ∧
+    (∀ n, validate { stemSnapV := some n } = .ok ↔
+      n ≤ limitOf ModelConsts.listLimits "postscript_stem_snap_v" ∧
+      (ModelConsts.pairLists.contains "postscript_stem_snap_v" = true → n % 2 = 0)) ∧
+    (∀ l, validate { selection := some l } = .ok ↔ ∀ b ∈ ModelConsts.selectionForbidden, b ∉ l) ∧
+    (∀ c s, validate { familyClass := some (c, s) } = .ok ↔
+      (ModelConsts.classRange.1 ≤ c ∧ c ≤ ModelConsts.classRange.2) ∧
+      (ModelConsts.subclassRange.1 ≤ s ∧ s ≤ ModelConsts.subclassRange.2)) ∧
+    (∀ k : Nat, validate { guidelines := some [⟨none, .angle (.fin false k 0 0)⟩] } = .ok ↔
+      ModelConsts.angleRange.1 ≤ k ∧ k ≤ ModelConsts.angleRange.2) := by
+  have l1 : limitOf ModelConsts.listLimits "postscript_blue_values" = 14 := by decide
+  have l2 : limitOf ModelConsts.listLimits "postscript_other_blues" = 10 := by decide
+  have l3 : limitOf ModelConsts.listLimits "postscript_family_blues" = 14 := by decide
+  have l4 : limitOf ModelConsts.listLimits "postscript_family_other_blues" = 10 := by decide
+  have l5 : limitOf ModelConsts.listLimits "postscript_stem_snap_h" = 12 := by decide
+  have l6 : limitOf ModelConsts.listLimits "postscript_stem_snap_v" = 12 := by decide
+  have p1 : ModelConsts.pairLists.contains "postscript_blue_values" = true := by decide
+  have p2 : ModelConsts.pairLists.contains "postscript_other_blues" = true := by decide
+  have p3 : ModelConsts.pairLists.contains "postscript_family_blues" = true := by decide
+  have p4 : ModelConsts.pairLists.contains "postscript_family_other_blues" = true := by decide
+  have p5 : ModelConsts.pairLists.contains "postscript_stem_snap_h" = false := by decide
+  have p6 : ModelConsts.pairLists.contains "postscript_stem_snap_v" = false := by decide
+  refine ⟨fun v => rfl, ?_, ?_, ?_, ?_, ?_, ?_, ?_, ?_, ?_, ?_, ?_⟩
+  · intro c
+    simp [okChar, ModelConsts.dateExtraChars, Bool.or_assoc]
+    rfl
+  · intro v h
+    simp only [ModelConsts.dateLength] at h
+    simp [validateDate, h]
+  · intro n; rw [l1, p1]
+    exact rules_single (fun h => ⟨h.blueValues.1, fun _ => h.blueValues.2⟩)
+      (fun h => by constructor <;> first | exact ⟨h.1, h.2 rfl⟩ | exact True.intro)
+  · intro n; rw [l2, p2]
+    exact rules_single (fun h => ⟨h.otherBlues.1, fun _ => h.otherBlues.2⟩)
+      (fun h => by constructor <;> first | exact ⟨h.1, h.2 rfl⟩ | exact True.intro)
+  · intro n; rw [l3, p3]
+    exact rules_single (fun h => ⟨h.familyBlues.1, fun _ => h.familyBlues.2⟩)
+      (fun h => by constructor <;> first | exact ⟨h.1, h.2 rfl⟩ | exact True.intro)
+  · intro n; rw [l4, p4]
+    exact rules_single (fun h => ⟨h.familyOtherBlues.1, fun _ => h.familyOtherBlues.2⟩)
+      (fun h => by constructor <;> first | exact ⟨h.1, h.2 rfl⟩ | exact True.intro)
+  · intro n; rw [l5, p5]
+    exact rules_single (fun h => ⟨h.stemSnapH, fun e => by cases e⟩)
+      (fun h => by constructor <;> first | exact h.1 | exact True.intro)
+  · intro n; rw [l6, p6]
+    exact rules_single (fun h => ⟨h.stemSnapV, fun e => by cases e⟩)
+      (fun h => by constructor <;> first | exact h.1 | exact True.intro)
+  · intro l
+    have e : (∀ b ∈ ModelConsts.selectionForbidden, b ∉ l) ↔ SelectionOK l := by
+      simp [ModelConsts.selectionForbidden, SelectionOK]
+    rw [e]
+    exact rules_single (fun h => h.selection)
+      (fun h => by constructor <;> first | exact h | exact True.intro)
+  · intro c s
+    have e : ((ModelConsts.classRange.1 ≤ c ∧ c ≤ ModelConsts.classRange.2) ∧
+        (ModelConsts.subclassRange.1 ≤ s ∧ s ≤ ModelConsts.subclassRange.2)) ↔ ClassOK (c, s) := by
+      simp [ModelConsts.classRange, ModelConsts.subclassRange, ClassOK]
+    rw [e]
+    exact rules_single (fun h => h.familyClass)
+      (fun h => by constructor <;> first | exact h | exact True.intro)
+  · intro k
+    have e : (ModelConsts.angleRange.1 ≤ k ∧ k ≤ ModelConsts.angleRange.2) ↔
+        AnglesOK [⟨none, .angle (.fin false k 0 0)⟩] := by
+      simp [ModelConsts.angleRange, AnglesOK, lineAngleOK, Dbl.in0to360, Dbl.num, Dbl.den]
+    rw [e]
+    exact rules_single (fun h => h.angles)
+      (fun h => by
+        constructor <;> first
+          | exact h
+          | exact True.intro
+          | (show IdsUnique _; simp [IdsUnique]))
+
+open RuleTable in
+/-- the independent rule table says what the specification predicates say -/
+theorem spec_table_describes_rules :
+    (∀ n, BlueOK 14 n ↔ n ≤ limitOf listLimits "postscript_blue_values" ∧ n % 2 = 0) ∧
+    (∀ n, BlueOK 10 n ↔ n ≤ limitOf listLimits "postscript_other_blues" ∧ n % 2 = 0) ∧
+    (∀ n, BlueOK 14 n ↔ n ≤ limitOf listLimits "postscript_family_blues" ∧ n % 2 = 0) ∧
+    (∀ n, BlueOK 10 n ↔ n ≤ limitOf listLimits "postscript_family_other_blues" ∧ n % 2 = 0) ∧
+    (∀ n, StemOK n ↔ n ≤ limitOf listLimits "postscript_stem_snap_h") ∧
+    (∀ n, StemOK n ↔ n ≤ limitOf listLimits "postscript_stem_snap_v") ∧
+    (∀ l, SelectionOK l ↔ ∀ b ∈ selectionForbidden, b ∉ l) ∧
+    (∀ p, ClassOK p ↔ p.1 ≤ classMax ∧ p.2 ≤ subclassMax) ∧
+    (∀ k : Nat, lineAngleOK (.angle (.fin false k 0 0)) = true ↔ angleRange.1 ≤ k ∧ k ≤ angleRange.2) ∧
+    (∀ v, DateOK v → v.length = dateLength ∧ (∀ pc ∈ dateSeparators, v[pc.1]? = some pc.2) ∧
+      (∀ f ∈ dateFields, f.2.1 ≤ num2 v f.1 ∧ num2 v f.1 ≤ f.2.2)) ∧
+    (¬ Rules { woffExtensions := some [] } ∧ ¬ Rules { woffCredits := some 0 } ∧
+     ¬ Rules { woffCopyright := some 0 } ∧ ¬ Rules { woffDescription := some 0 } ∧
+     ¬ Rules { woffTrademark := some 0 } ∧ Rules { woffLicense := some 0 }) := by
+  refine ⟨?_, ?_, ?_, ?_, ?_, ?_, ?_, ?_, ?_, ?_, ?_⟩
+  · intro n; have : limitOf listLimits "postscript_blue_values" = 14 := by decide
+    rw [this]; rfl
+  · intro n; have : limitOf listLimits "postscript_other_blues" = 10 := by decide
+    rw [this]; rfl
+  · intro n; have : limitOf listLimits "postscript_family_blues" = 14 := by decide
+    rw [this]; rfl
+  · intro n; have : limitOf listLimits "postscript_family_other_blues" = 10 := by decide
+    rw [this]; rfl
+  · intro n; have : limitOf listLimits "postscript_stem_snap_h" = 12 := by decide
+    rw [this]; rfl
+  · intro n; have : limitOf listLimits "postscript_stem_snap_v" = 12 := by decide
+    rw [this]; rfl
+  · intro l; simp [selectionForbidden, SelectionOK]
+  · intro p; simp [classMax, subclassMax, ClassOK]
+  · intro k; simp [angleRange, lineAngleOK, Dbl.in0to360, Dbl.num, Dbl.den]
+  · intro v hd
+    have hl : v.length = 19 := hd.1
+    obtain ⟨c0, c1, c2, c3, c4, c5, c6, c7, c8, c9, c10, c11, c12, c13, c14, c15, c16, c17, c18, rfl⟩ := len19 v hl
+    rw [dateOK_19] at hd
+    obtain ⟨_, s4, s7, s10, s13, s16, x5, x8, x11, x14, x17⟩ := hd
+    refine ⟨rfl, ?_, ?_⟩
+    · simp [dateSeparators, s4, s7, s10, s13, s16]
+    · simp only [dateFields, List.mem_cons, List.not_mem_nil, or_false, forall_eq_or_imp, forall_eq, num2,
+        List.getD_cons_succ, List.getD_cons_zero]
+      exact ⟨x5, x8, ⟨Nat.zero_le _, x11⟩, ⟨Nat.zero_le _, x14⟩, ⟨Nat.zero_le _, x17⟩⟩
+  · refine ⟨fun h => ?_, fun h => ?_, fun h => ?_, fun h => ?_, fun h => ?_, ?_⟩
+    · exact h.extensions.1 rfl
+    · exact absurd h.credits (by simp [whenSome, NonEmpty])
+    · exact absurd h.copyright (by simp [whenSome, NonEmpty])
+    · exact absurd h.description (by simp [whenSome, NonEmpty])
+    · exact absurd h.trademark (by simp [whenSome, NonEmpty])
+    · constructor <;> exact True.intro
+
+/-- the six list limits and the "must be pairs" set of the source are the model's and the statement's -/
+theorem source_limits_match_model :
+    sameSet Generated.FontInfoRules.listLimits ModelConsts.listLimits ∧
+    sameSet Generated.FontInfoRules.pairLists ModelConsts.pairLists ∧
+    sameSet Generated.FontInfoRules.listLimits RuleTable.listLimits ∧
+    sameSet Generated.FontInfoRules.pairLists RuleTable.pairLists ∧
+    (Generated.FontInfoRules.listLimits.map (·.1)).Nodup := by decide +kernel
+
+/-- date: length, character whitelist and every operand of the chain (slices, separators, ranges) -/
+theorem source_date_ranges_match_model :
+    Generated.FontInfoRules.dateLength = ModelConsts.dateLength ∧
+    sameSet Generated.FontInfoRules.dateExtraChars ModelConsts.dateExtraChars ∧
+    sameSet Generated.FontInfoRules.dateOps ModelConsts.dateOps ∧
+    Generated.FontInfoRules.dateLength = RuleTable.dateLength ∧
+    sameSet (fieldsOf Generated.FontInfoRules.dateOps) RuleTable.dateFields ∧
+    sameSet (separatorsOf Generated.FontInfoRules.dateOps) RuleTable.dateSeparators ∧
+    yearsOf Generated.FontInfoRules.dateOps = [RuleTable.dateYear] ∧
+    (∀ op ∈ Generated.FontInfoRules.dateOps, op.2.2.1 ≤ Generated.FontInfoRules.dateLength) := by
+  decide +kernel
+
+theorem source_selection_bits_match_model :
+    sameSet Generated.FontInfoRules.selectionForbidden ModelConsts.selectionForbidden ∧
+    sameSet Generated.FontInfoRules.selectionForbidden RuleTable.selectionForbidden := by decide +kernel
+
+theorem source_family_class_matches_model :
+    Generated.FontInfoRules.classRange = ModelConsts.classRange ∧
+    Generated.FontInfoRules.subclassRange = ModelConsts.subclassRange ∧
+    Generated.FontInfoRules.classRange = (0, RuleTable.classMax) ∧
+    Generated.FontInfoRules.subclassRange = (0, RuleTable.subclassMax) := by decide +kernel
+
+theorem source_angle_range_matches_model :
+    Generated.FontInfoRules.angleRange = ModelConsts.angleRange ∧
+    Generated.FontInfoRules.angleRange = RuleTable.angleRange := by decide +kernel
+
+/-- the WOFF attributes the source tests for emptiness are the ones the statement demands content of
+    (no more: the license text stays optional), and the extension records are tested at all three levels -/
+theorem source_woff_checks_match_spec :
+    sameSet (Generated.FontInfoRules.woffNonEmpty.map (·.1)) RuleTable.woffNonEmpty ∧
+    sameSet Generated.FontInfoRules.woffNested ["items", "names", "values"] := by decide +kernel
 
 /-! ### non-vacuity and the regression witnesses -/
 
